@@ -44,7 +44,17 @@ def with_zero_runs(strategy):
         if isinstance(spec.get('trace'), list):
             spec['trace'] = True
         return spec
-    return st.builds(add, strategy, st.sampled_from([0, 0, 0, 1, 2]))
+
+    def direct(spec, use):
+        # one of the later stretches is run with Environment.run instead of System.simulate
+        if use and len(spec['T']) > 1 and not spec.get('trace'):
+            spec = dict(spec)
+            spec['via_env'] = [1 + (use % (len(spec['T']) - 1))] if len(spec['T']) > 2 else [1]
+            if len(spec['T']) == 2:
+                a = spec['T'][1]
+                spec['T'] = [spec['T'][0], a / 2, a / 2] if a >= 1 else spec['T']
+        return spec
+    return st.builds(direct, st.builds(add, strategy, st.sampled_from([0, 0, 0, 1, 2])), st.sampled_from([0, 0, 1, 2, 3]))
 
 
 def phases(tier):
